@@ -37,7 +37,8 @@ func (c03) Plan(tier string, seed int64) []mon.Workload {
 	}
 	return []mon.Workload{{Name: "programs", N: n}, {Name: "loop-scope", N: int64(len(c03Loops) * len(c03Bodies) * len(c03Vars)), Exhaustive: true},
 		{Name: "branch-table", N: 8 * 16 * 2 * 3, Exhaustive: true},
-		{Name: "map-iteration", N: n / 10}}
+		{Name: "map-iteration", N: n / 10},
+		{Name: "many-locals", N: manyLocalsN(), Exhaustive: true}}
 }
 
 // loop-scope: every loop form x body template x variable kind. The body
@@ -202,6 +203,9 @@ func (k c03) Describe(c *mon.Ctx, workload string, i int64) any {
 	if workload == "map-iteration" {
 		return map[string]any{"source": buildMapIter(c.R).Src}
 	}
+	if workload == "many-locals" {
+		return map[string]any{"source": gt.Print(manyLocalsProgram(i), nil)}
+	}
 	pc := k.build(c)
 	pts := []string{}
 	for _, p := range pc.Points {
@@ -246,6 +250,11 @@ func (k c03) Run(c *mon.Ctx, workload string, i int64) {
 	}
 	if workload == "map-iteration" {
 		runMapIter(c, false)
+		return
+	}
+	if workload == "many-locals" {
+		st := manyLocalsProgram(i)
+		runV1Compare(c, progCase{Stmts: st, Src: gt.Print(st, nil), Points: []*ref.Point{ref.NewPoint("m", nil, map[string]any{"f1": int64(1)}, time.Unix(1700000000, 0))}}, "c03.p")
 		return
 	}
 	pc := k.build(c)
